@@ -58,7 +58,9 @@ TIERS = {
         exhaustive=dict(CellNames='{"ort", "trineg", "skew"}', PatNames='{"P2s", "P3iso", "P3het", "P4ax", "P4tet"}',
                         MaxCopies=1, MaxDecoys=0, MaxAtoms=9, Anchors="AnchQ", Decoys="DecoyQ", DecoyRots="RotsQ", Shifts="ShiftQ1"),
         extra=[dict(CellNames='{"big", "bigtri"}', PatNames='{"P4flat"}', MaxCopies=0, MaxDecoys=1, MaxAtoms=8,
-                    Anchors="AnchB", Decoys="DecoyQ", DecoyRots="Rot24", Shifts="ShiftQ1", Kinds='{"mirror"}')],
+                    Anchors="AnchB", Decoys="DecoyQ", DecoyRots="Rot24", Shifts="ShiftQ1", Kinds='{"mirror"}'),
+               dict(CellNames='{"huge", "hugetri"}', PatNames='{"P3long"}', MaxCopies=1, MaxDecoys=1, MaxAtoms=6,
+                    Anchors="AnchH", Decoys="DecoyQ", DecoyRots="RotsQ", PlantRots="RotsQ", Shifts="ShiftQ1", Kinds='{"bend"}')],
         simulate=dict(CellNames='{"cub", "ort", "tri", "trineg", "skew"}', PatNames=ALLP,
                       MaxCopies=2, MaxDecoys=2, MaxAtoms=12, Anchors="AnchT", Decoys="DecoyT", DecoyRots="Rot24",
                       num=6, depth=5, workers=8, sample=400),
@@ -68,6 +70,8 @@ TIERS = {
     "thorough": dict(
         extra=[dict(CellNames='{"big", "bigtri"}', PatNames='{"P4flat", "P4ax"}', MaxCopies=1, MaxDecoys=1, MaxAtoms=8,
                     Anchors="AnchB", Decoys="DecoyQ", DecoyRots="Rot24", Shifts="ShiftQ1", Kinds='{"mirror"}'),
+               dict(CellNames='{"huge", "hugetri"}', PatNames='{"P3long"}', MaxCopies=1, MaxDecoys=1, MaxAtoms=6,
+                    Anchors="AnchH", Decoys="DecoyQ", DecoyRots="Rot24", PlantRots="Rot24", Shifts="ShiftQ1", Kinds='{"bend"}'),
                dict(CellNames='{"ort", "trineg"}', PatNames='{"P2s", "P3iso", "P4ax"}', MaxCopies=2, MaxDecoys=0, MaxAtoms=8,
                     Anchors="AnchQ", Decoys="DecoyQ", DecoyRots="RotsQ", Shifts="ShiftQ1")],
         exhaustive=dict(CellNames='{"cub", "ort", "tri", "trineg", "skew"}', PatNames=ALLP,
